@@ -189,6 +189,31 @@ def run(ctx):
             kf_hits += 1
         elif v[0].startswith("VIOL"):
             viol.append((p, v))
+    #    (d) FIELD spellings through TEXT: whatever spelling of a field the lexer accepts must end up inside exactly one quoted identifier (spellings the
+    #        lexer rejects are simply not accepted filters)
+    FIELD_TEXTS = ['"a"', '"a b"', '"a"" OR 1=1 --"', '"x"";DROP TABLE t;--"', "[a]", "`a`", 'a"b', "a'b", "a;b", "a--b", "a/*b*/", '""', '"', 'a""b', "s1\"", '"s1" or "1"="1"', "ns.s1", "s1.x", "_s1", "S1",
+                   "\u017f1", "s\u00b9", "\uff531", 's1"', "\"s1\"\"\""]
+    FIELD_TEMPLATES = ["{f} eq 1", "contains({f},'x')", "length(concat({f},{f})) eq 2", "{f} in ({f},1)", "not ({f} eq null)"]
+    fviol_text = []
+    for tmpl in FIELD_TEMPLATES:
+        for d in sc.DIALECTS:
+            for a in (None, "t"):
+                ben = text_sql(d, a, tmpl.replace("{f}", "s1"))
+                if not ben.startswith("ok "):
+                    continue
+                rows_ = [(nm, text_sql(d, a, tmpl.replace("{f}", nm))) for nm in FIELD_TEXTS]
+                acc = [(nm, r) for nm, r in rows_ if r.startswith("ok ")]
+                tally["text:field-rejected"] += len(rows_) - len(acc)
+                ft = lex_real([x for nm, r in acc for x in (r[3:], ben[3:])])
+                for i, (nm, r) in enumerate(acc):
+                    ctx.evaluations += 1
+                    hs, _, hq = shape(ft[2 * i]); bs, _, bq = shape(ft[2 * i + 1])
+                    if hs is None:
+                        viol.append(((d, a, -3, nm, tmpl.replace("{f}", nm), r, ben[3:]), ("VIOL-untokenisable", "an accepted field spelling breaks the tokenisation of the SQL text")))
+                    elif hs != bs or len(hq) != len(bq):
+                        viol.append(((d, a, -3, nm, tmpl.replace("{f}", nm), r, ben[3:]), ("VIOL-tokens-changed", "an accepted field spelling changed the token sequence outside the quoted identifier")))
+                    else:
+                        tally["text:field-ok"] += 1
     ctx.extra["judged"] = dict(tally)
     ctx.note(f"judge C07 on real output (Lean tokeniser): {dict(tally)}; {len(viol)} violations outside known findings")
     if viol:
